@@ -10,7 +10,10 @@ From VQ Require Import Glue.EinopsGlueMore.
 From VQ Require Import Glue.Pin_fp_C10.
 From VQ Require Import Proofs.EinopsRepeat.
 From VQ Require Import Model.Strides Proofs.StridesProofs Glue.Pin_inv_view_writes.
+From VQ Require Import Proofs.StridesGeneral.
 Import ListNotations.
+
+(* implicit *)
 
 (* implicit *)
 
@@ -580,3 +583,35 @@ Theorem C10_tie_no_new_write_through_view_handles :
   inv_view_writes.inv_view_writes = pinned_inv_view_writes.
 Proof. exact (@Pin_inv_view_writes.pin_inv_view_writes). Qed.
 Print Assumptions C10_tie_no_new_write_through_view_handles.
+
+Theorem C10_mergeable_write_lands :
+  forall (A : Type) (zero : A) (t : t3) (m : storage A) (rows : nat -> bool) (i j k : nat),
+       sb t = nn t * sn t ->
+       injective_addressing t ->
+       i < nb t ->
+       j < nn t ->
+       k < nd t -> get A (write_through_reshape A zero m t rows) t i j k = where_rows A zero m t rows i j k.
+Proof. exact (@StridesGeneral.mergeable_write_lands). Qed.
+Print Assumptions C10_mergeable_write_lands.
+
+Theorem C10_feature_permuted_write_lands :
+  forall (A : Type) (zero : A) (b n d : nat) (m : storage A) (rows : nat -> bool) (i j k : nat),
+       i < b ->
+       j < n ->
+       k < d ->
+       get A (write_through_reshape A zero m (feature_permuted b n d) rows) (feature_permuted b n d) i j k =
+       where_rows A zero m (feature_permuted b n d) rows i j k.
+Proof. exact (@StridesGeneral.feature_permuted_write_lands). Qed.
+Print Assumptions C10_feature_permuted_write_lands.
+
+Theorem C10_expanded_write_aliases :
+  forall (A : Type) (zero one : A),
+       one <> zero ->
+       exists (t : t3) (m : storage A) (rows : nat -> bool) (i j k : nat),
+         sb t = nn t * sn t /\
+         i < nb t /\
+         j < nn t /\
+         k < nd t /\
+         get A (write_through_reshape A zero m t rows) t i j k <> where_rows A zero m t rows i j k.
+Proof. exact (@StridesGeneral.expanded_write_aliases). Qed.
+Print Assumptions C10_expanded_write_aliases.
